@@ -40,14 +40,18 @@ enum Ragged {
     BlankMiddle,
     /// a middle line uses the other line terminator (same bases, different width)
     MixedEolMiddle,
+    /// an empty line between the definition and the first sequence line: no fai record with the
+    /// naive offset exists; an indexer may refuse it or skip the blank line consistently
+    BlankAfterDefinition,
 }
 
-const RAGGED_KINDS: [Ragged; 5] = [
+const RAGGED_KINDS: [Ragged; 6] = [
     Ragged::LongMiddle,
     Ragged::ShortMiddle,
     Ragged::LongerLast,
     Ragged::BlankMiddle,
     Ragged::MixedEolMiddle,
+    Ragged::BlankAfterDefinition,
 ];
 
 #[derive(Clone, Debug, PartialEq, Eq, Hash)]
@@ -56,11 +60,11 @@ struct FileSpec {
     recs: Vec<(usize, usize)>,
     crlf: bool,
     /// line terminators after the last sequence line: 0 = no final newline, 1 = final newline,
-    /// 2 and 3 = one and two blank trailing lines
+    /// 2..=5 = one to four blank trailing lines
     tail: usize,
     desc: bool,
-    /// one blank line after every record but the last
-    sep_blank: bool,
+    /// this many blank lines (0..=4) after every record but the last
+    sep_blank: usize,
     ragged: Ragged,
     ragged_rec: usize,
     /// wide geometry: in the quick tier only boundary regions are queried
@@ -146,6 +150,9 @@ fn build_file(s: &FileSpec) -> Option<Vec<u8>> {
                     }
                     other_eol_at = Some(1);
                 }
+                Ragged::BlankAfterDefinition => {
+                    lines.insert(0, Vec::new());
+                }
             }
         }
         let k = lines.len();
@@ -162,8 +169,10 @@ fn build_file(s: &FileSpec) -> Option<Vec<u8>> {
                 out.extend_from_slice(eol(s.crlf));
             }
         }
-        if r + 1 < n && s.sep_blank {
-            out.extend_from_slice(eol(s.crlf));
+        if r + 1 < n {
+            for _ in 0..s.sep_blank {
+                out.extend_from_slice(eol(s.crlf));
+            }
         }
     }
     Some(out)
@@ -465,7 +474,7 @@ fn fasta_case(s: &FileSpec, rd: Rd, mode: Mode, complete_regions: bool, c: &Coun
         )
     };
     let naive = naive_parse(&plain);
-    let has_blank = s.tail >= 2 || (s.sep_blank && s.recs.len() > 1);
+    let has_blank = s.tail >= 2 || (s.sep_blank > 0 && s.recs.len() > 1);
     let ragged_by_oracle = naive.iter().any(naive_is_ragged);
     if ragged_by_oracle != (s.ragged != Ragged::None) {
         vmc::machinery(format!(
@@ -541,6 +550,8 @@ fn fasta_case(s: &FileSpec, rd: Rd, mode: Mode, complete_regions: bool, c: &Coun
             return Ok(());
         }
         (Ok(v), Ragged::None) => v,
+        // accepted although odd: allowed only if it is consistent (name, length and every query)
+        (Ok(v), Ragged::BlankAfterDefinition) => v,
         (Ok(v), kind) => {
             if mode == Mode::Beyond {
                 return Ok(());
@@ -566,10 +577,18 @@ fn fasta_case(s: &FileSpec, rd: Rd, mode: Mode, complete_regions: bool, c: &Coun
         .iter()
         .map(|r| (r.name().to_vec(), r.length(), r.position(), r.line_base_count().get(), r.line_width().get()))
         .collect();
-    let want: Vec<(Vec<u8>, u64, u64, u64, u64)> = naive
+    let mut want: Vec<(Vec<u8>, u64, u64, u64, u64)> = naive
         .iter()
         .map(|n| (n.name.clone(), n.length, n.offset, n.line_bases, n.line_width))
         .collect();
+    if s.ragged == Ragged::BlankAfterDefinition && got.len() == want.len() {
+        // the naive offset / line fields of that record are not expressible; its name, length and
+        // every query are judged
+        let r = s.ragged_rec;
+        want[r].2 = got[r].2;
+        want[r].3 = got[r].3;
+        want[r].4 = got[r].4;
+    }
     if got != want {
         if mode == Mode::Beyond {
             return Ok(());
@@ -770,9 +789,11 @@ fn specs(quick: bool) -> Vec<FileSpec> {
     let variants = |n: usize| {
         let mut v = Vec::new();
         for crlf in [false, true] {
-            for tail in 0..=3 {
-                for desc in [false, true] {
-                    for sep_blank in if n > 1 { vec![false, true] } else { vec![false] } {
+            for tail in 0..=5usize {
+                for sep_blank in if n > 1 { 0..=4usize } else { 0..=0 } {
+                    // descriptions only with the small blank-line counts (they do not interact)
+                    let descs: &[bool] = if tail <= 3 && sep_blank <= 1 { &[false, true] } else { &[false] };
+                    for &desc in descs {
                         v.push((crlf, tail, desc, sep_blank));
                     }
                 }
@@ -840,7 +861,9 @@ fn specs(quick: bool) -> Vec<FileSpec> {
             for recs in [vec![(len, w)], vec![(len, w), (3, 1)], vec![(3, 1), (len, w)]] {
                 for crlf in [false, true] {
                     for tail in 0..=2 {
-                        out.push(FileSpec { recs: recs.clone(), crlf, tail, desc: false, sep_blank: false, ragged: Ragged::None, ragged_rec: 0, wide: true });
+                        for sep_blank in if recs.len() > 1 { vec![0usize, 2] } else { vec![0] } {
+                            out.push(FileSpec { recs: recs.clone(), crlf, tail, desc: false, sep_blank, ragged: Ragged::None, ragged_rec: 0, wide: true });
+                        }
                     }
                 }
             }
@@ -856,7 +879,7 @@ fn specs(quick: bool) -> Vec<FileSpec> {
                         crlf,
                         tail,
                         desc: false,
-                        sep_blank: false,
+                        sep_blank: 0,
                         ragged: kind,
                         ragged_rec,
                         wide: false,
@@ -966,11 +989,16 @@ fn fasta_write_read(recs: &[FaRec], width: usize, cap: usize, c: &Counters) -> O
             format!("{back:?}"),
         ));
     }
-    // the written file, indexed: equals the naive parse, whole sequences come back (no empty
-    // sequences here: the indexer refuses them by design)
-    if recs.iter().all(|r| r.len > 0) {
+    // the written file, indexed: equals the naive parse, whole sequences come back. A file with an
+    // empty sequence may be refused (the indexer does so by design); if it is accepted it is judged
+    // like any other (for the empty record itself: name and length; line fields cannot be 0).
+    let has_empty = recs.iter().any(|r| r.len == 0);
+    {
         let naive = naive_parse(&bytes);
         match run_indexer(BufReader::with_capacity(cap, &bytes[..]), bytes.len() + 1000) {
+            Err(e) if has_empty && !e.starts_with("HANG") => {
+                let _ = e;
+            }
             Err(e) => {
                 return Err(vio(
                     format!("fmt=fasta stage=index-written width={wcls} symptom=error"),
@@ -981,7 +1009,14 @@ fn fasta_write_read(recs: &[FaRec], width: usize, cap: usize, c: &Counters) -> O
             }
             Ok(v) => {
                 let got: Vec<_> = v.iter().map(|r| (r.name().to_vec(), r.length(), r.position(), r.line_base_count().get(), r.line_width().get())).collect();
-                let want: Vec<_> = naive.iter().map(|n| (n.name.clone(), n.length, n.offset, n.line_bases, n.line_width)).collect();
+                let mut want: Vec<_> = naive.iter().map(|n| (n.name.clone(), n.length, n.offset, n.line_bases, n.line_width)).collect();
+                if got.len() == want.len() {
+                    for (w, g) in want.iter_mut().zip(&got) {
+                        if w.1 == 0 {
+                            (w.2, w.3, w.4) = (g.2, g.3, g.4);
+                        }
+                    }
+                }
                 if got != want {
                     return Err(vio(
                         format!("fmt=fasta stage=index-written width={wcls} symptom=differs-from-naive-parse"),
@@ -1137,7 +1172,7 @@ fn main() {
         ctx.rule(
             "E3 complete sweeps. fasta_geometry / fasta_beyond: every file spec (1-3 records; target (length 1..=12 x line width 1..=5) completely, \
              second record from 12 geometries in both orders (quick) or the complete 60x60 square plus single records up to length 24 x width 8 (thorough); three records over 4^3 (quick) / 12^3 (thorough) geometries; widths {60,200} x lengths {59,60,61,199,200,201,401}; \
-             LF/CRLF; 0..3 trailing line terminators; descriptions; blank line between records; 5 ragged kinds) x reader configuration (BufReader capacity 1,2,3,8192 \
+             LF/CRLF; 0..5 trailing line terminators (up to 4 blank trailing lines); 0..4 blank lines between records; descriptions; 6 ragged/odd kinds; every shape the indexer refuses is allowed, every shape it accepts must agree with the naive parse in index and in every query) x reader configuration (BufReader capacity 1,2,3,8192 \
              or bgzipped in 7-byte blocks with a harness-built gzi, with/without the EOF-block entry) and inside each case every record x every region \
              start..=end with 1<=start<=end<=len+3 plus start.., ..=end and .. (wide geometries: boundary positions only in the quick tier, all in thorough). \
              distinct = distinct (file bytes, reader configuration) pairs; states = (file, reader, record) triples whose complete region set was checked. \
